@@ -245,6 +245,7 @@ def run(case):
             world.feed("".join(f"{n};255;0;0;17;2.0\n" for n in nodes))
             images = []
             loaded = {}
+            scheduled = {}  # node -> key of the last update call that really scheduled it
             for idx, img in enumerate(cfg["images"]):
                 data = bytes.fromhex(img["data"])
                 key = (img["type"], img["ver"])
@@ -276,12 +277,17 @@ def run(case):
                         gateway.tasks.ota.make_update(targets, img["type"], img["ver"], data)
                 if ok:
                     loaded[key] = data  # a later image with the same key replaces the earlier one
+                    for nid in targets:
+                        scheduled[nid] = key
                 images.append((key, ok))
             link = Link(world, cfg["rates"], cfg["link_seed"], cfg["fault_until"])
             peers = []
             for spec in case["ops"]:
                 key, ok = images[spec["image"]]
-                expect = key in loaded
+                expect = scheduled.get(spec["node"]) == key
+                if not expect and spec["node"] in scheduled:
+                    key = scheduled[spec["node"]]  # an earlier successful call still stands
+                    expect = True
                 peer = Bootloader(link, spec, key, expect)
                 peers.append(peer)
                 peer.start()
